@@ -790,6 +790,31 @@ theorem lru_evict_getReader_refine (l : Lru) (disk : List Nat) (now f : Nat) :
   | none => exact absLru_get_miss h
   | some r => exact absLru_get_hit h
 
+/-- `Snapshot.Close`'s `cache.ReleaseReaders(s.readers)` on the LIST model — per reader `cache.Get`
+(found ⇒ MoveToFront) + `release()` — is the model's `snapRel` step (closed form `releaseAll`): for
+every LRU order, every reader list (with repetitions, cached or not) the resulting list abstracts to
+the step's cache, stays duplicate-free, and whatever a TTL/LRU `Cleanup` closes right afterwards is
+unreferenced in the step's cache. -/
+theorem release_readers_lru_refines (s : St) (i : Nat) (l : Lru) (hl : LruOk l) (hc : s.cref = absLru l)
+    (ttl : Int) (now : Nat) :
+    (snapRel s i).cref = absLru (lruRelease l (s.snap i).held) ∧ LruOk (lruRelease l (s.snap i).held) ∧
+    (lruClosed ttl now (lruRelease l (s.snap i).held)).all (canClean (snapRel s i).cref) = true := by
+  have h1 : (snapRel s i).cref = releaseAll (absLru l) (s.snap i).held := by simp [snapRel, hc]
+  refine ⟨by rw [h1, absLru_release], lruOk_release hl _, ?_⟩
+  rw [h1]; exact release_then_walk_closes_only_idle hl _
+
+/-- the LRU order `ReleaseReaders` leaves: each released entry moves to the front (a release counts as
+a use for the ORDER although `last` is not refreshed), the others keep their relative order -/
+theorem release_readers_lru_order (l : Lru) (f : Nat) :
+    lruOrder (lruRelease1 l f) = if f ∈ lruOrder l then f :: (lruOrder l).filter (· ≠ f) else lruOrder l :=
+  lruOrder_release1 l f
+
+/-- consequence worth knowing (not a C02 violation): a just-released idle entry sits at the FRONT, so an
+old idle entry behind a still-referenced one is not reached by the walk (it stops at the first rejection) -/
+example : lruOrder (lruRelease [⟨4, 1, 95⟩, ⟨3, 1, 10⟩, ⟨2, 2, 20⟩] [2, 3]) = [3, 2, 4] ∧
+    lruClosed 10 100 (lruRelease [⟨4, 1, 95⟩, ⟨3, 1, 10⟩, ⟨2, 2, 20⟩] [2, 3]) = [] ∧
+    absLru (lruRelease [⟨4, 1, 95⟩, ⟨3, 1, 10⟩, ⟨2, 2, 20⟩] [2, 3]) 3 = some 0 := by decide
+
 /-- non-vacuity: a three-entry LRU list whose tail is idle and expired, middle is retained -/
 example : lruClosed 10 100 [⟨4, 0, 95⟩, ⟨3, 1, 10⟩, ⟨2, 0, 20⟩] = [2] ∧
     (lruWalk 10 100 [⟨4, 0, 95⟩, ⟨3, 1, 10⟩, ⟨2, 0, 20⟩]).map (·.file) = [4, 3] := by decide
